@@ -20,6 +20,66 @@ CLAIMS = {
    technique="TLA+ specification of rANS (write/read/renormalisation, final-state classes), frequency normalisation and table serialisation model-checked by TLC at precision 4/8/16 over every table and symbol sequence; TLC-emitted rows replayed through the real RAnsEncoder/Decoder templates at the same precision; EncodeSymbols/DecodeSymbols observations trace-validated (lossless, exact consumption, fails cleanly)",
    text="B => A by TLC on the complete small-precision domains; the same C++ templates that run at precision 12..20 in production are instantiated at precision 2/3 and compared row by row with TLC's behaviours; end-to-end symbol arrays over the property's distributions (each in a forked child) are validated by TLC against Level A, step records and normalised tables against Level B.",
    note="Trusted: TLC; exact-integer model of the double-based normalisation (drift would be reported, none seen); forked-child crash attribution in the driver."),
+ "C01": dict(
+   category="model_checking", design_ref="DESIGN.md §6 C01",
+   technique='TLA+ Level-A relation Equivalent (bag of oriented triangles of per-corner value tuples, sandwich for Edgebreaker, order for sequential, bag of points for kd-tree) evaluated by TLC on round-trip traces of the real codec: exhaustive small canonical meshes x seam masks x option rows, random geometries x random option sets, big geometries',
+   text='Every recorded encode/decode of the real library is validated by TLC against the property-level relation; the small-mesh domain is enumerated completely (all canonical lists of <=2/3 faces over 5 ids with all / sampled seam masks), options are drawn over method, sub-method, speeds 0..10, quantisation, forced prediction, entropy coding, split-on-seams, Encoder/ExpertEncoder.',
+   note="Trusted: TLC; the driver's projection of geometries to value ids (bit patterns -> ids through one dictionary per attribute; quantised attributes through draco's own Quantizer / octahedron tool box as the definition of the declared quantisation); big geometries are compared through 30-bit triangle / point hashes."),
+ "C03": dict(
+   category="model_checking", design_ref="DESIGN.md §6 C03",
+   technique='TLA+ predicate StructValid evaluated by TLC on the facts read through the public accessors of every successfully decoded geometry (normal and skip-transform decodes) of the round-trip campaigns',
+   text='Decoded geometries of valid streams over the whole option space are checked for face indices < num_points, mapped indices < size, storage >= size x stride. (Corrupted streams are added by the C02 campaign.)',
+   note="Trusted: TLC; the driver's projection of geometries to value ids (bit patterns -> ids through one dictionary per attribute; quantised attributes through draco's own Quantizer / octahedron tool box as the definition of the declared quantisation); big geometries are compared through 30-bit triangle / point hashes."),
+ "C06": dict(
+   category="model_checking", design_ref="DESIGN.md §6 C06",
+   technique='TLC validates determinism clauses on traces of the real codec: two independent encodes give identical bytes, two decodes identical ordered digests, trailing bytes do not matter, exact consumption',
+   text='Each case is encoded twice with fresh objects and decoded three times (plain, again, with 7 trailing bytes); TLC compares the 64-bit hashes and the remaining sizes.',
+   note="Trusted: TLC; the driver's projection of geometries to value ids (bit patterns -> ids through one dictionary per attribute; quantised attributes through draco's own Quantizer / octahedron tool box as the definition of the declared quantisation); big geometries are compared through 30-bit triangle / point hashes."),
+ "C09": dict(
+   category="model_checking", design_ref="DESIGN.md §6 C09",
+   technique='TLC validates CountsAgree (reported = decoded points and faces) on every round-trip trace, Encoder and ExpertEncoder, meshes and point clouds, all methods; inputs with duplicate points are validated as a separate class (known finding F10)',
+   text="Exhaustive small meshes x seam masks and random geometries with tracking enabled; the verdict is TLC's on the recorded counts.",
+   note="Trusted: TLC; the driver's projection of geometries to value ids (bit patterns -> ids through one dictionary per attribute; quantised attributes through draco's own Quantizer / octahedron tool box as the definition of the declared quantisation); big geometries are compared through 30-bit triangle / point hashes."),
+ "C10": dict(
+   category="model_checking", design_ref="DESIGN.md §6 C10",
+   technique='TLC validates on every trace with quantised attributes: skip-transform decode keeps the unique id, exposes integer data + transform, the described transform (public InitFromAttribute / InverseTransformAttribute) reproduces the normal decode value for value, everything else is untouched',
+   text='Every subset of skipped types that occurs in the campaigns (all quantised types of the case) over sequential, kd-tree and Edgebreaker streams.',
+   note="Trusted: TLC; the driver's projection of geometries to value ids (bit patterns -> ids through one dictionary per attribute; quantised attributes through draco's own Quantizer / octahedron tool box as the definition of the declared quantisation); big geometries are compared through 30-bit triangle / point hashes."),
+ "C04": dict(
+   category="model_checking", design_ref="DESIGN.md §6 C04",
+   technique='TLA+ model of a rounding quantiser with bounded per-operation error model-checked by TLC (HalfStep, InBox; truncation shown to violate); real encodes over q=1..30 x methods x speeds x prediction x entropy on/off projected to exact integers and validated by TLC',
+   text='B => A on the complete small box; 1500 (60000) real rows of 64 values each, exact-rational projection, TLC checks worst error <= half a step + 8 ulp and box containment per row.',
+   note='Trusted: TLC; tools/project.py (exact rationals over float32 bit patterns); allowance constant fixed at 8 ulp (measured worst 1.6).'),
+ "C07": dict(
+   category="model_checking", design_ref="DESIGN.md §6 C07",
+   technique='TLC model-checks the integer octahedron toolbox (every lattice vector, q<=4: in-square, canonical, invertible); real quantised normals over q=2..30, direction and length classes, both prediction schemes are projected exactly and validated by TLC (unit length, angle bound, coordinates in the q-bit square)',
+   text='Integer half exhaustive for small q; float half observed on 1200 (40000) rows of 64 normals.',
+   note='Trusted: TLC; tools/project.py (exact cross/dot products, 60-digit decimal square roots).'),
+ "C12": dict(
+   category="model_checking", design_ref="DESIGN.md §6 C12",
+   technique="TLC validates FunDep (equal coordinate + equal explicit parameters => equal decoded bits) and OnGrid (against the caller's parameters) over two-tile scenarios encoded separately with every method pair; quantiser model checked by TLC",
+   text='160 (6000) scenarios x 2 tiles x 56 points; parameters representable and not representable in 6 decimals.',
+   note='Trusted: TLC; tools/project.py.'),
+ "C20": dict(
+   category="model_checking", design_ref="DESIGN.md §6 C20",
+   technique="TLA+ state machine of KeyframeAnimation call histories model-checked by TLC and replayed on the real class; random animations round-tripped through the real encoder/decoder and validated by TLC (frames, order, timestamps, tracks by id; quantised tracks through C04's bound)",
+   text='All 4096 call histories of length 4 replayed (returned ids / refusals compared, tracks retrievable); 500 (12000) random animations.',
+   note='Trusted: TLC; driver projection of values to ids.'),
+ "C05": dict(
+   category="model_checking", design_ref="DESIGN.md §6 C05",
+   technique='Frozen corpus (330 streams frozen once from the encoder over all methods/speeds/layouts + 25 legacy testdata streams, versions 1.1..2.3) decoded and compared by TLC with the frozen ordered digests; header rewrites to every version checked against the TLA+ Supported predicate; gate table sanity model-checked',
+   text='Any change that alters what an existing stream decodes to (format constants, version gates, traversal order, enum values) changes a digest; unknown versions must yield UNKNOWN_VERSION.',
+   note='Trusted: TLC; the digest function of the driver; the corpus frozen at the pinned commit.'),
+ "C13": dict(
+   category="model_checking", design_ref="DESIGN.md §6 C13",
+   technique='Three-phase PlusCal-style transcription of CornerTable::Create model-checked by TLC on every canonical triangle list of <=3 (4) faces over 5 ids against CornerTableOK; every row replayed through the real class and compared field by field; all 2.08M four-face lists run natively with a validated sample; random large lists validated by TLC',
+   text='B => A exhaustive on the small domain; code = B on all 18 209 rows (every field); Level A evaluated by TLC on the real tables of sampled 4-face lists and random lists up to 400 faces.',
+   note='Trusted: TLC; public accessors of CornerTable.'),
+ "C11": dict(
+   category="model_checking", design_ref="DESIGN.md §6 C11",
+   technique="TLA+ transcription of the metadata encoder recursion and the decoder's explicit stack model-checked by TLC on 63 430 trees x 5 attribute-metadata lists (RoundTrip); every tree replayed through the real MetadataEncoder/Decoder (bytes compared) and a sample through the full codec; random large trees; TLC validates Level A on every observation",
+   text='B => A exhaustive on the bounded tree domain; code = B on all rows; full-codec path for all four methods incl. attribute metadata keyed by unique id.',
+   note='Trusted: TLC; values > 48 bytes compared through (length, hash).'),
 }
 NOT_YET = "check not built yet in this round (planned in DESIGN.md §6); no claim is made until its TLA+ spec and conformance harness exist"
 
